@@ -5,6 +5,7 @@ import (
 	"encoding/json"
 	"errors"
 	"fmt"
+	"math"
 	"os"
 	"path/filepath"
 	"sort"
@@ -37,7 +38,9 @@ func (o dtOp) String() string {
 	if o.F != "" {
 		a = append(a, o.F)
 	}
-	if o.TTL != 0 {
+	if o.TTL < 0 {
+		a = append(a, "ttl=max")
+	} else if o.TTL != 0 {
 		a = append(a, fmt.Sprintf("ttl=%ds", o.TTL))
 	}
 	if o.C == "zadd" {
@@ -69,6 +72,7 @@ func c19Alphabet() []dtOp {
 		// metadata (every 0xFF), a sorted-set member that looks like another member's score-ordered key
 		dtOp{C: "zadd", Key: k, F: "m2", Sc: 16777217.5, Dev: true},
 		dtOp{C: "set", Key: k, F: "ff", Dev: true},
+		dtOp{C: "set", Key: k, TTL: -1, Dev: true}, // a TTL of math.MaxInt64 ns: now + ttl overflows, the key never expires
 		dtOp{C: "zadd", Key: k, F: c19Collide, Sc: 7, Dev: true})
 	return a
 }
@@ -172,13 +176,15 @@ func (r *dtRun) apply(o dtOp) (string, bool) {
 			v = bytes.Repeat([]byte{0xff}, 12)
 		}
 		var ttl time.Duration
-		if o.TTL != 0 {
+		if o.TTL < 0 {
+			ttl = time.Duration(math.MaxInt64)
+		} else if o.TTL != 0 {
 			ttl = time.Duration(o.TTL) * time.Second
 		}
 		if err := r.svc.Set(key, v, ttl); err != nil {
 			return mismatch("Set returned %v", err)
 		}
-		m[o.Key] = &dtVal{typ: datatype.String, str: string(v), ttl: o.TTL != 0}
+		m[o.Key] = &dtVal{typ: datatype.String, str: string(v), ttl: o.TTL > 0}
 	case "del":
 		if err := r.svc.Del(key); err != nil {
 			return mismatch("Del returned %v", err)
@@ -627,7 +633,7 @@ func init() {
 	register(&Check{
 		Prop:   "C19",
 		Engine: "seq",
-		Rule:   "all command sequences within (depth, deviation bound) over 25 mutating commands on two keys (all five types, deletion, re-creation with another type, clock advance past the TTL, restart); every reply is compared with a data-type model, and after every step a probe battery (every read command on every key/field/member) is compared with the model; across restart the battery must be unchanged. non-trivial = at least two different types were live during the sequence",
+		Rule:   "all command sequences within (depth, deviation bound) over 26 mutating commands on two keys (all five types, deletion, re-creation with another type, clock advance past the TTL, restart); every reply is compared with a data-type model, and after every step a probe battery (every read command on every key/field/member) is compared with the model; across restart the battery must be unchanged. non-trivial = at least two different types were live during the sequence",
 		Assumptions: []string{
 			"the clock (time.Now in package datatype) is owned by the harness: strictly monotone, advanced by 2 s by the Advance symbol; TTL is 1 s",
 			"not judged (sequence pruned there): commands of one type on a container of another type that was emptied but not deleted (Redis removes it, the code keeps its metadata). An expired string is absent for EVERY command",
